@@ -9,6 +9,7 @@
 package main
 
 import (
+	"massnet.org/mass-wallet/masswallet/keystore"
 	"bufio"
 	"bytes"
 	"flag"
@@ -49,6 +50,10 @@ func must(err error) {
 type env struct {
 	h *hist.H
 	r *rng.R
+	// small gap limits: no reorganisations in the original's life — a payment that justified later address indexes
+	// and is then reorganised away makes restore discovery miss funded addresses (recorded under C12:
+	// discovery-after-reorged-first-payment), which is not what C07's histories are about
+	noReorg bool
 }
 
 func (e *env) attach(b *massutil.Block, process bool) {
@@ -106,7 +111,7 @@ func (e *env) step(process bool) {
 		e.attach(h.BuildBlock(r.Intn(4), e.extra()), process)
 		bump("blocks", 1)
 	case k < 80:
-		if h.N.Height() >= 2 {
+		if h.N.Height() >= 2 && !e.noReorg {
 			e.reorg(1+r.Intn(4), process)
 		}
 	default:
@@ -119,9 +124,17 @@ func (e *env) step(process bool) {
 func runOne(seed uint64, n int, out *bufio.Writer, long bool) {
 	r := rng.New(seed*1000003 + uint64(n))
 	r = rng.New(r.U64() ^ (uint64(n)+1)*0xD1342543DE82EF95) // consecutive seeds of splitmix64 give shifted copies of one stream
+	// the gap limit of the instances of this history: mostly the default 20; short histories now and then a small one,
+	// so that restore hints at or above the gap limit, and used addresses beyond them, occur (stale exports / hints)
+	gap := uint32(20)
+	if !long && r.Chance(30) {
+		gap = []uint32{3, 5}[r.Intn(2)]
+	}
+	sim.Cur.GapLimit = gap
+	defer func() { sim.Cur.GapLimit = 20 }()
 	h, err := hist.New(r, out, n, hist.Options{Unsupported: true, Games: true, MaxReorg: 4}, nil)
 	must(err)
-	e := &env{h: h, r: r}
+	e := &env{h: h, r: r, noReorg: gap < 20}
 	var d *hist.Drive
 	defer func() {
 		if rc := recover(); rc != nil {
@@ -153,17 +166,35 @@ func runOne(seed uint64, n int, out *bufio.Writer, long bool) {
 			cls = 1
 		}
 		_, err := h.NewAddress(w1, cls)
+		if err == keystore.ErrGapLimit && gap < 20 {
+			bump("gap_refusals", 1)
+			return
+		}
 		must(err)
 	}
 	newAddr()
 	steps := 10 + r.Intn(20)
+	// a STALE backup: the keystore is exported (or the index hint noted) at some step of the history, the wallet goes
+	// on issuing and being paid, and the restore uses the old export / the old hint
+	staleAt := -1
+	if !long && r.Chance(40) {
+		staleAt = r.Intn(steps)
+	}
+	staleJS, staleHint := "", uint32(0)
 	fillerAt := -1
 	if long {
 		fillerAt = r.Intn(steps)
 	}
 	for s := 0; s < steps; s++ {
-		if r.Chance(12) {
+		if r.Chance(12) || (gap < 20 && r.Chance(35)) {
 			newAddr()
+		}
+		if s == staleAt {
+			var err error
+			staleJS, err = h.W.WM.ExportWallet(w1.ID, w1.Pass)
+			must(err)
+			staleHint = uint32(len(w1.Addrs))
+			bump("stale_backups", 1)
 		}
 		e.step(true)
 		if s == fillerAt {
@@ -183,6 +214,9 @@ func runOne(seed uint64, n int, out *bufio.Writer, long bool) {
 	if useJSON {
 		js, err = h.W.WM.ExportWallet(w1.ID, pass)
 		must(err)
+		if staleJS != "" {
+			js = staleJS
+		}
 	}
 	h.CloseInstance()
 
@@ -251,7 +285,12 @@ func runOne(seed uint64, n int, out *bufio.Writer, long bool) {
 		twin, err = h.ImportKeystoreJSON(w1.Num, js, pass, d.Pass(pass))
 		bump("import_keystore", 1)
 	} else {
-		twin, err = h.ImportMnemonic(w1.Num, mn, pass, d.Pass(pass))
+		if staleAt >= 0 {
+			twin, err = h.ImportMnemonicHint(w1.Num, mn, pass, d.Pass(pass), staleHint)
+			bump("import_mnemonic_stale_hint", 1)
+		} else {
+			twin, err = h.ImportMnemonic(w1.Num, mn, pass, d.Pass(pass))
+		}
 		bump("import_mnemonic", 1)
 	}
 	must(err)
